@@ -36,10 +36,10 @@ ASSUMPTIONS = [
     "path components are matched case-sensitively",
 ]
 BUDGET = {"quick": (200, 4), "thorough": (64000, 16)}
-REQUIRED = ["glob", "dir_pattern", "basename", "relpath_pattern", "ii_file", "nested", "child_after_parent", "x_file_and_dir", "multi_generation", "duplicate_pattern", "verify_dh", "sf_generation", "real_missing_next_to_excluded"]
+REQUIRED = ["glob", "dir_pattern", "basename", "relpath_pattern", "ii_file", "nested", "child_after_parent", "x_file_and_dir", "multi_generation", "duplicate_pattern", "verify_dh", "sf_generation", "real_missing_next_to_excluded", "blank_in_pattern_file_line"]
 
 DEFAULTS = [".DS_Store", "ascmhl", "ascmhl/"]
-_first = "abcdefghijklmnopqrstuvwxyzABCDEXYZ0123456789_."
+_first = "abcdefghijklmnopqrstuvwxyzABCDEFGHIJKLMNOPQRSTUVWXYZ0123456789_."
 
 
 def _walk(tree, prefix=""):
@@ -86,6 +86,12 @@ def _scn(draw):
     tree = draw(gen.trees("plain", max_leaves=14, min_top=2))
     if not any(isinstance(v, dict) for v in tree.values()):
         tree["d" + draw(gen.plain_names())] = draw(gen.trees("plain", max_leaves=5, min_top=1))
+    if draw(st.integers(0, 2)) == 0:
+        # names with inner blanks are literal for the matcher too; a pattern file must keep such a line in one piece
+        tree.setdefault("Camera Reports", {"report 1.txt": "r1", "notes.txt": "n"})
+        tree.setdefault("my notes.txt", "mine")
+        tree.setdefault("my", "not to be confused")
+        tree.setdefault("Clip 01.mov", "clip")
     entries = list(_walk(tree))
     nf = sorted({p.split("/")[-1] for p, d in entries if not d})
     nd = sorted({p.split("/")[-1] for p, d in entries if d})
@@ -349,6 +355,8 @@ def run_case(scn, ctx):
             feats.add("basename")
         if any("/" in p[:-1] for p in allp):
             feats.add("relpath_pattern")
+        if any(" " in p for g in scn["gens"] for p in g["ii"]):
+            feats.add("blank_in_pattern_file_line")
         if any(g["ii"] for g in scn["gens"]):
             feats.add("ii_file")
         if len(allp) != len(set(allp)):
